@@ -8,6 +8,7 @@ from vf import meta as vmeta, sandbox, target
 from vf.engine import Outcome, Violation
 from vf.gen import trees
 from vf.props import common
+from vf.ref import metafile as refmeta
 
 ID = "C18"
 LEVEL = "exploration"
@@ -41,7 +42,8 @@ def strategy(tier):
              "damage": draw(st.sampled_from(["none", "none", "flip", "remove"])),
              "bystanders": draw(st.lists(st.sampled_from([".torrent", "NAME.torrent", "notes.txt", "outdir/.torrent", "outdir/other.torrent",
                                                           "outdir/NAME.torrent", "m.torrent.bak"]), unique=True, max_size=4)),
-             "content_path": draw(st.sampled_from(["root", "parent"]))}
+             "content_path": draw(st.sampled_from(["root", "parent"])),
+             "meta_kind": draw(st.sampled_from(["own", "own", "ref"]))}
         if cmd in ("create", "new"):
             c["out_mode"] = draw(st.sampled_from(["none", "file", "existing-file", "dir"]))
             c["version"] = draw(st.sampled_from(["1", "2", "3"]))
@@ -69,7 +71,14 @@ def run_case(case):
         mf_name = case.get("mf_name", "m.torrent")
         mf = os.path.join(box, mf_name)
         try:
-            common.create(case["creator"], "lib", root, mf, 16384)
+            if case.get("meta_kind") == "ref":
+                # a foreign metafile: no 'created by' / 'creation date', conformant v2 single file without info.length
+                ver = {"TorrentFile": 1, "Assembler2": 2, "Assembler3": 3}[case["creator"]]
+                with open(mf, "wb") as fd:
+                    fd.write(refmeta.build(tree, 16384, ver, trailing_pad=True))
+                classes.append("foreign-metafile")
+            else:
+                common.create(case["creator"], "lib", root, mf, 16384)
         except Exception as e:
             return Outcome(Violation("C18:setup-exception:%s" % type(e).__name__, "creating the metafile raised %r" % (e,)), False)
         os.makedirs(os.path.join(box, "outdir"), exist_ok=True)
